@@ -124,6 +124,22 @@ def run(ctx):
                 name = P.ERR.get(type(ex).__name__, "RuntimeErr")
                 res = ("err", name, repr(ex)[:160])
                 lit = f"(Err {name})"
+            # default predictor (Hamming distance to THIS graph's central state): the best score reported for the first pruned step of a
+            # simple search is the least number of mismatches over the exact frontier (the beam was never pruned before)
+            if sk is None and not advanced and ball_depth is None and res[0] != "err":
+                layer = {tuple(start)}
+                for step in range(1, steps + 1):
+                    layer = {G.act(gd, gi_, s_) for s_ in layer for gi_ in range(G.n_gens(gd))}
+                    if tuple(gd["central"]) in layer or len(layer) > 4000:
+                        break
+                    if len(layer) >= width:                                   # the code scores a layer as soon as it has beam_width states
+                        want_best = min(sum(1 for a_, b_ in zip(gd["central"], s_) if a_ != b_) for s_ in layer)
+                        got_best = r.debug_scores.get(step - 1)                  # iteration numbers are zero-based
+                        ctx.count("default_predictor_best_score_checked")
+                        if got_best is not None and int(got_best) != want_best:
+                            ctx.violation("property_fails", f"default (Hamming) predictor: best score at the first pruned step {step} is {got_best}, the least number of "
+                                          f"mismatches with this graph's central state over the frontier is {want_best}", dict(case, claim="default_predictor_score"), True)
+                        break
             sels = [(sc, idx[:width]) for sc, idx in rec]
             dropped = any(len(sc) > width for sc, _ in rec)
             d = dist_from_start.get(tuple(gd["central"]))
